@@ -1,4 +1,4 @@
-CONSTANT Families = {"reject","rejnum","interp1","interpnd","aesth","median","median2","sky"}
+CONSTANT Families = {"reject","rejnum","interp1","interpnd","aesth","median","median2","sky","skywide"}
 CONSTANT Tier = "quick"
 INIT Init
 NEXT Next
@@ -11,6 +11,8 @@ INVARIANT C17_RejGrowWidth
 INVARIANT C17_RejSecondPassDone
 INVARIANT C17_RejLimitsAbsent
 INVARIANT C17_RejZeroWeight
+INVARIANT C17_RejZeroSigmaSign
+INVARIANT C17_RejModesAgree
 INVARIANT C17_RejExpectedAccepted
 INVARIANT C17_RejDevDiffers
 INVARIANT C17_MIOnlyMaskedChange
@@ -42,5 +44,6 @@ INVARIANT C17_SkyGrowMonotone
 INVARIANT C17_SkyWidth
 INVARIANT C17_SkyOtherBits
 INVARIANT C17_SkyRowsIndependent
+INVARIANT C17_SkyWideIsolated
 INVARIANT C17_SkyOnlyZeroes
 CHECK_DEADLOCK FALSE
